@@ -129,6 +129,10 @@ fn mac0() -> Frame {
 fn macopts() -> Frame {
     Frame::Down { fcnt: Fcnt::Rel(1), confirmed: false, ack: false, fopts: vec![0x06], port: None, payload: vec![], tamper: Tamper::None }
 }
+/// an acceptable LinkADRReq (keep data rate and power, all channels on) that asks for `n` transmissions per uplink
+fn nbtrans(n: u8) -> Frame {
+    Frame::Down { fcnt: Fcnt::Rel(1), confirmed: false, ack: false, fopts: crate::cmds::link_adr(15, 15, 0x00FF, 6, n, false).bytes, port: None, payload: vec![], tamper: Tamper::None }
+}
 fn bad() -> Frame {
     Frame::Down { fcnt: Fcnt::Rel(1), confirmed: false, ack: false, fopts: vec![], port: Some(1), payload: vec![1, 2, 3], tamper: Tamper::BadMic }
 }
@@ -165,6 +169,8 @@ impl System for NbSys {
                 (Some(bad()), Some(good(false))),
                 (Some(mac0()), None),
                 (None, Some(macopts())),
+                (Some(nbtrans(2)), None),
+                (None, Some(nbtrans(15))),
             ];
             for (rx1, rx2) in &outcomes {
                 v.push(Ev::Cycle { confirmed: conf, port: 1, len, rx1: rx1.clone(), rx2: rx2.clone() });
@@ -272,6 +278,8 @@ impl System for ASys {
             Script { rx1: Some(bad()), ..Default::default() },
             Script { rx1: Some(mac0()), ..Default::default() },
             Script { rx2: Some(macopts()), ..Default::default() },
+            Script { rx1: Some(nbtrans(2)), ..Default::default() },
+            Script { rx2: Some(nbtrans(15)), ..Default::default() },
         ];
         if self.class_c {
             scripts.push(Script { rxc1: vec![good(false)], ..Default::default() });
@@ -453,7 +461,7 @@ pub fn run(tier: Tier, replay: Option<&str>) {
         ],
         "evaluations": ctx.evals(),
         "distinct_nontrivial": states,
-        "rule": "BFS over histories of whole uplink transactions (and Class C idle listening) on the real nb and async devices; every transaction is run with every receive outcome of the alphabet (nothing, RX1 hit, RX2 hit confirmed, invalid frame, MAC-only downlink on port 0 / in FOpts, Class C downlink before RX1 / RX2) and with a radio fault at every radio call position of the transaction - a single failing call, or an outage spanning 2 / 3 consecutive radio calls (nb: the retried step fails again) or 2 calls / the rest of the public call (async) -, at most `fault_bound` such deviations per history; sessions start with fcnt_up at 0, 0xFFFE, 0xFFFF, 2^32-3, 2^32-2, 2^32-1, and (fault-free, depth 3) one uplink before each ADR back-off threshold (63, 95, 127 uplinks without a downlink) at the lowest and at a higher data rate; every frame handed to the radio is decoded by the reference codec (counter recovered by MIC verification)",
+        "rule": "BFS over histories of whole uplink transactions (and Class C idle listening) on the real nb and async devices; every transaction is run with every receive outcome of the alphabet (nothing, RX1 hit, RX2 hit confirmed, invalid frame, MAC-only downlink on port 0 / in FOpts, accepted LinkADRReq asking for 2 / 15 transmissions per uplink, Class C downlink before RX1 / RX2) and with a radio fault at every radio call position of the transaction - a single failing call, or an outage spanning 2 / 3 consecutive radio calls (nb: the retried step fails again) or 2 calls / the rest of the public call (async) -, at most `fault_bound` such deviations per history; sessions start with fcnt_up at 0, 0xFFFE, 0xFFFF, 2^32-3, 2^32-2, 2^32-1, and (fault-free, depth 3) one uplink before each ADR back-off threshold (63, 95, 127 uplinks without a downlink) at the lowest and at a higher data rate; every frame handed to the radio is decoded by the reference codec (counter recovered by MIC verification)",
         "fault_bound_completed": bound,
         "depth": depth,
         "configurations": runs.len(),
